@@ -362,13 +362,19 @@ where
         let (f, i1, i2) = self.start(t);
 
         if self.remove_from_bucket(i1, f) {
+            #[cfg(feature = "verif_hooks")]
+            crate::verif::hit(crate::verif::Event::CuckooDeleteFirst);
             self.n_elements -= 1;
             return true;
         }
         if self.remove_from_bucket(i2, f) {
+            #[cfg(feature = "verif_hooks")]
+            crate::verif::hit(crate::verif::Event::CuckooDeleteSecond);
             self.n_elements -= 1;
             return true;
         }
+        #[cfg(feature = "verif_hooks")]
+        crate::verif::hit(crate::verif::Event::CuckooDeleteMiss);
         false
     }
 
@@ -443,18 +449,30 @@ where
         log: &mut Vec<(usize, u64)>,
     ) -> Result<bool, CuckooFilterFull> {
         if self.write_to_bucket(i1, f) {
+            #[cfg(feature = "verif_hooks")]
+            crate::verif::hit(crate::verif::Event::CuckooInsertFirst);
             self.n_elements += 1;
             return Ok(true);
         }
         if self.write_to_bucket(i2, f) {
+            #[cfg(feature = "verif_hooks")]
+            crate::verif::hit(crate::verif::Event::CuckooInsertSecond);
             self.n_elements += 1;
             return Ok(false);
         }
+        #[cfg(feature = "verif_hooks")]
+        crate::verif::kick_begin();
 
         // cannot write to obvious buckets => relocate
         let mut i = if self.rng.gen::<bool>() { i1 } else { i2 };
 
         for _ in 0..MAX_NUM_KICKS {
+            #[cfg(feature = "verif_hooks")]
+            if !crate::verif::kick_allowed() {
+                break;
+            }
+            #[cfg(feature = "verif_hooks")]
+            crate::verif::hit(crate::verif::Event::CuckooKick);
             let e: usize = self.rng.gen_range(0..self.bucketsize);
             let offset = i * self.bucketsize;
             let x = offset + e;
@@ -467,16 +485,30 @@ where
 
             i ^= self.hash(&f);
             if self.write_to_bucket(i, f) {
+                #[cfg(feature = "verif_hooks")]
+                crate::verif::hit(crate::verif::Event::CuckooInsertAfterKick);
                 self.n_elements += 1;
                 return Ok(true);
             }
         }
 
         // no space left => fail
+        #[cfg(feature = "verif_hooks")]
+        crate::verif::hit(crate::verif::Event::CuckooInsertFailed);
         Err(CuckooFilterFull)
     }
 
+    /// Verification hook: raw slot contents (0 = free), bucket-major.
+    #[cfg(feature = "verif_hooks")]
+    pub fn verif_slots(&self) -> Vec<u64> {
+        self.table.iter().collect()
+    }
+
     fn restore_state(&mut self, log: &[(usize, u64)]) {
+        #[cfg(feature = "verif_hooks")]
+        crate::verif::hit(crate::verif::Event::CuckooRollback);
+        #[cfg(feature = "verif_hooks")]
+        crate::verif::gauge_max(crate::verif::Event::CuckooRollbackLenMax, log.len());
         for (pos, data) in log.iter().rev().cloned() {
             self.table.set(pos as u64, data);
         }
@@ -540,6 +572,8 @@ where
         let mut log: Vec<(usize, u64)> = vec![];
         let n_elements_backup = self.n_elements;
         let mut i1: usize = 0;
+        #[cfg(feature = "verif_hooks")]
+        let mut verif_transferred: usize = 0;
         for (counter, f) in other.table.iter().enumerate() {
             // calculate current bucket
             if (counter > 0) && (counter % other.bucketsize == 0) {
@@ -550,9 +584,22 @@ where
             if f != 0 {
                 let i2 = i1 ^ other.hash(&f);
                 if let Err(err) = self.insert_internal(f, i1, i2, &mut log) {
+                    #[cfg(feature = "verif_hooks")]
+                    crate::verif::hit(if verif_transferred == 0 {
+                        crate::verif::Event::CuckooUnionFailFirst
+                    } else if verif_transferred + 1 == other.n_elements {
+                        crate::verif::Event::CuckooUnionFailLast
+                    } else {
+                        crate::verif::Event::CuckooUnionFailMiddle
+                    });
                     self.restore_state(&log);
                     self.n_elements = n_elements_backup;
                     return Err(err);
+                }
+                #[cfg(feature = "verif_hooks")]
+                {
+                    verif_transferred += 1;
+                    crate::verif::hit(crate::verif::Event::CuckooUnionTransferred);
                 }
             }
         }
